@@ -1,6 +1,8 @@
 package main
 
 import (
+	"encoding/hex"
+	"encoding/json"
 	"flag"
 	"fmt"
 	"math/rand"
@@ -15,6 +17,8 @@ type Args struct {
 	Seed int64
 	Tier string
 	In   string
+	In2  string
+	Reg  string
 	Out  string
 	N    int
 	Part int
@@ -55,8 +59,11 @@ func main() {
 	fs.Int64Var(&a.Seed, "seed", 1, "seed for every random choice")
 	fs.StringVar(&a.Tier, "tier", "quick", "quick|thorough")
 	fs.StringVar(&a.In, "in", "", "input file (generated cases)")
+	fs.StringVar(&a.In2, "in2", "", "second input file")
+	fs.StringVar(&a.Reg, "reg", "", "extension profiles to register (X1,X2,X3)")
 	fs.StringVar(&a.Out, "out", "", "output trace file (NDJSON)")
 	fs.IntVar(&a.N, "n", 0, "size parameter")
+	fs.IntVar(&chunkFlag, "chunk", 0, "events per trace file")
 	fs.IntVar(&a.Part, "part", 0, "partition index")
 	fs.IntVar(&a.Of, "of", 1, "number of partitions")
 	fs.Parse(os.Args[2:])
@@ -65,3 +72,15 @@ func main() {
 }
 
 func readFile(p string) ([]byte, error) { return os.ReadFile(p) }
+
+func loadJSON(path string, v any) {
+	b, err := os.ReadFile(path)
+	if err != nil {
+		fatal("read %s: %v", path, err)
+	}
+	if err := json.Unmarshal(b, v); err != nil {
+		fatal("parse %s: %v", path, err)
+	}
+}
+
+func hexs(b []byte) string { return hex.EncodeToString(b) }
